@@ -13,8 +13,8 @@ import ast
 
 from xfabsa import core, numeric as N, rotref as RR
 from xfabsa.core import AnalysisError
-from xfabsa.poly import Rat
-from xfabsa.symeval import Evaluator, sym_array, Arr, Opaque, scalar, materialise
+from xfabsa.poly import Rat, func_atom, single_atom
+from xfabsa.symeval import monomial_sign, Evaluator, sym_array, Arr, Opaque, scalar, materialise, RaiseReached
 
 SNAP_RATIO_MAX = 1e-6      # tol(_arctan2) / tol(gimbal) must not exceed the rebuild accuracy the property demands
 
@@ -36,113 +36,84 @@ def compare(ctx, key, got, want, where, what, sample=False):
     return not bad
 
 
-def elif_chain(fn):
-    """first top-level `if .. elif .. else` with two tests -> (if node, test1, test2)"""
-    for st in core.body_wo_doc(fn):
-        if isinstance(st, ast.If) and len(st.orelse) == 1 and isinstance(st.orelse[0], ast.If) and st.orelse[0].orelse:
-            return st, st.test, st.orelse[0].test
-    raise AnalysisError("u_to_euler: gimbal if/elif/else chain not found")
-
-
-def literal_assign(fn, name):
-    for st in core.body_wo_doc(fn):
-        if isinstance(st, ast.Assign) and isinstance(st.targets[0], ast.Name) and st.targets[0].id == name \
-                and isinstance(st.value, ast.Constant) and isinstance(st.value.value, (int, float)):
-            return float(st.value.value), st
-    return None, None
+def exc_name(r):
+    exc = r.node.exc
+    if isinstance(exc, ast.Call):
+        exc = exc.func
+    return getattr(exc, "id", getattr(exc, "attr", None))
 
 
 def analyse_arctan2(ctx, mod, short):
-    """_arctan2 must be the two-argument arctangent: branch table by signs"""
+    """_arctan2 must be the two-argument arctangent.  The function is evaluated (E3) on every sign case of (x, y) -- the signs
+    answer whatever comparisons it makes, in whatever order or nesting -- and on the cases where one argument lies inside an
+    absolute zero-snap band.  -> {argument: snap threshold}"""
     fn = mod.func("_arctan2"); ctx.saw(mod, fn)
     where = core.loc(mod, fn)
-    py, px = [a.arg for a in fn.args.args]
-    body = core.body_wo_doc(fn)
-    # snaps: `if n.abs(v) < tol: v = 0`
-    tol, tolst = literal_assign(fn, "tol")
-    snaps = {}
-    chain = None
-    for st in body:
-        if isinstance(st, ast.If):
-            t = st.test
-            if (isinstance(t, ast.Compare) and len(t.ops) == 1 and isinstance(t.ops[0], ast.Lt)
-                    and isinstance(t.left, ast.Call) and getattr(t.left.func, "attr", getattr(t.left.func, "id", "")) in ("abs", "absolute")
-                    and isinstance(t.left.args[0], ast.Name)):
-                v = t.left.args[0].id
-                okb = (len(st.body) == 1 and isinstance(st.body[0], ast.Assign) and st.body[0].targets[0].id == v
-                       and isinstance(st.body[0].value, ast.Constant) and st.body[0].value.value == 0 and not st.orelse)
-                if not okb:
-                    raise AnalysisError("_arctan2: snap statement of unexpected form")
-                thr = t.comparators[0]
-                thr = tol if isinstance(thr, ast.Name) and thr.id == "tol" else (thr.value if isinstance(thr, ast.Constant) else None)
-                snaps[v] = thr
-            else:
-                chain = st
-    if chain is None:
-        raise AnalysisError("_arctan2: branch chain not found")
-    # walk the if/elif chain
-    arms = []
-    node = chain
-    while True:
-        arms.append((node.test, node.body))
-        if len(node.orelse) == 1 and isinstance(node.orelse[0], ast.If):
-            node = node.orelse[0]
-        else:
-            tail = node.orelse
-            break
+    if len(fn.args.args) != 2:
+        raise AnalysisError("_arctan2 does not take (y, x)")
     PI = N.PI
-    yx = Rat.atom("y") / Rat.atom("x")
-    at = N.ref("arctan(q)", {"q": yx})
+    X, Y = Rat.atom("x"), Rat.atom("y")
+    at = N.ref("arctan(q)", {"q": Y / X})
+    snaps = {}
 
-    def truth(t, sx, sy):
-        """evaluate a condition over comparisons of x / y with 0 on a sign case (-1, 0, +1)"""
-        if isinstance(t, ast.BoolOp):
-            vals = [truth(v, sx, sy) for v in t.values]
-            return all(vals) if isinstance(t.op, ast.And) else any(vals)
-        if isinstance(t, ast.UnaryOp) and isinstance(t.op, ast.Not):
-            return not truth(t.operand, sx, sy)
-        if isinstance(t, ast.Compare) and len(t.ops) == 1 and isinstance(t.left, ast.Name) \
-                and isinstance(t.comparators[0], ast.Constant) and t.comparators[0].value == 0 \
-                and t.left.id in (px, py):
-            v = sx if t.left.id == px else sy
-            return {ast.Gt: v > 0, ast.Lt: v < 0, ast.GtE: v >= 0, ast.LtE: v <= 0, ast.Eq: v == 0,
-                    ast.NotEq: v != 0}[type(t.ops[0])]
-        raise AnalysisError("_arctan2: condition `%s` is not a sign test of the arguments" % core.unparse(t))
+    def run_case(sx, sy, tiny=None):
+        def thr(q, t, node):
+            for nm, v in (("x", X), ("y", Y)):
+                if q.equals(func_atom("abs", v)):
+                    snaps[nm] = max(snaps.get(nm, 0.0), float(t))
+                    return tiny == nm
+            return None
+
+        def signs(d, node=None):
+            return monomial_sign(d, lambda a_: sx if a_ == "x" else sy if a_ == "y" else None)
+        ev = Evaluator(mod, inline=set(), sign_policy=signs)
+        ev.threshold_policy = thr
+        try:
+            return "value", ev.call_function("_arctan2", [Y if sy else Rat.const(0), X if sx else Rat.const(0)])
+        except RaiseReached as r:
+            return "raise", exc_name(r)
+
+    def exact(sx, sy):
+        a0 = at if (sy and sx) else Rat.const(0)
+        if sx > 0:
+            return a0
+        if sx < 0:
+            return a0 + PI if sy >= 0 else a0 - PI
+        return PI / 2 if sy > 0 else -PI / 2
     for sx in (-1, 0, 1):
         for sy in (-1, 0, 1):
             case = "x%s0,y%s0" % ("<=>"[sx + 1], "<=>"[sy + 1])
-            body_ = None
-            for t, b in arms:
-                if truth(t, sx, sy):
-                    body_ = b
-                    break
-            if body_ is None:
-                body_ = tail
             key = "C03:arctan2:%s.%s" % (short, case)
-            st = body_[0] if len(body_) == 1 else None
-            if sx == 0 and sy == 0:
-                ok = isinstance(st, ast.Raise) and isinstance(st.exc, ast.Call) and getattr(st.exc.func, "id", "") == "ValueError"
-                ctx.check(ok, key, "(0,0) does not raise ValueError", where)
+            try:
+                kind, got = run_case(sx, sy)
+            except AnalysisError as e:
+                ctx.fail(key, "the sign case %s cannot be evaluated: %s" % (case, e), where)
                 continue
-            if not isinstance(st, ast.Return) or st.value is None:
+            if sx == 0 and sy == 0:
+                ctx.check(kind == "raise" and got == "ValueError", key, "(0,0) does not raise ValueError", where)
+                continue
+            if kind != "value" or got is None:
                 ctx.fail(key, "no value is returned for the sign case %s (falls through / raises)" % case, where)
                 continue
-            env = {py: Rat.atom("y") if sy else Rat.const(0), px: Rat.atom("x") if sx else Rat.const(0)}
-            try:
-                got = scalar(Evaluator(mod, inline=set()).eval(st.value, env))
-            except AnalysisError as e:
-                ctx.fail(key, "return expression cannot be evaluated in the sign case %s: %s" % (case, e), core.loc(mod, st))
-                continue
-            a0 = at if sy else Rat.const(0)
-            if sx > 0:
-                want = a0
-            elif sx < 0:
-                want = a0 + PI if sy >= 0 else a0 - PI
-            else:
-                want = PI / 2 if sy > 0 else -PI / 2
+            got = scalar(got)
+            want = exact(sx, sy)
             ctx.check(got.equals(want), key,
-                      "sign case %s returns %s, the two-argument arctangent is %s there" % (case, N.short(got), N.short(want)),
-                      core.loc(mod, st))
+                      "sign case %s returns %s, the two-argument arctangent is %s there" % (case, N.short(got), N.short(want)), where)
+    # inside a snap band the result must be the value at zero (or still the exact formula): same angle modulo 2 pi
+    for nm in sorted(snaps):
+        for st_ in (-1, 1):
+            for so in (-1, 1):
+                sx, sy = (st_, so) if nm == "x" else (so, st_)
+                key = "C03:arctan2:%s.snap-%s%s,other%s" % (short, nm, "<>"[st_ > 0], "<>"[so > 0])
+                try:
+                    kind, got = run_case(sx, sy, tiny=nm)
+                except AnalysisError as e:
+                    ctx.fail(key, "the snapped case cannot be evaluated: %s" % e, where)
+                    continue
+                at0 = exact(0, sy) if nm == "x" else exact(sx, 0)
+                ok = kind == "value" and got is not None and any(scalar(got).equals(w + k * 2 * PI) for w in (at0, exact(sx, sy)) for k in (-1, 0, 1))
+                ctx.check(ok, key, "with |%s| inside the snap band the result is %s, neither the value at %s = 0 (%s) nor the exact formula"
+                          % (nm, N.short(scalar(got)) if kind == "value" and got is not None else (kind, got), nm, N.short(at0)), where)
     return snaps
 
 
@@ -214,31 +185,47 @@ def run(ctx):
         # --- u_to_rod inverts it (reader/writer)
         fn = mod.func("u_to_rod"); ctx.saw(mod, fn)
 
-        def pol(test, e, env):
-            if N.skip_checks_policy(test, e, env) is False:
-                return False
-            if isinstance(test, ast.Compare) and "abs" in core.unparse(test.left):
-                return False        # trace guard: generic rotation (angle != 180 deg)
-            return None
         Uarr = Arr([[x for x in row] for row in want])
-        back = Evaluator(mod, inline=True, branch_policy=pol).call_function("u_to_rod", [Uarr])
+
+        def rod_run(inside):
+            seen = []
+
+            def thr(q, t, node):
+                seen.append((q, float(t)))
+                return inside
+            e_ = Evaluator(mod, inline=True, branch_policy=N.skip_checks_policy)
+            e_.threshold_policy = thr
+            return e_, seen
+        e_, _seen = rod_run(False)       # generic rotation (angle != 180 deg): outside the trace band
+        back = e_.call_function("u_to_rod", [Uarr.copy()])
         B = back if isinstance(back, Arr) else materialise(back)
         okb = B is not None and B.shape == (3,) and all(scalar(B.data[i]).equals(ratoms[i]) for i in range(3))
         ctx.check(okb, "C03:rod:%s.u_to_rod" % short,
                   "u_to_rod(rod_to_u(r)) is %s, not r" % (B.key()[:160] if B is not None else back), core.loc(mod, fn),
                   sample={"reader": "u_to_rod", "writer": "reference Rodrigues matrix", "result": B.key()[:80] if B is not None else ""})
-        # trace guard raises ValueError
-        tg = [st for st in core.body_wo_doc(fn) if isinstance(st, ast.If) and any(isinstance(x, ast.Raise) for x in st.body)]
-        ctx.check(len(tg) == 1 and getattr(tg[0].body[0].exc.func, "id", "") == "ValueError", "C03:rod:%s.trace-guard" % short,
-                  "vanishing 1 + tr U does not raise ValueError", core.loc(mod, fn))
+        # inside the band of a vanishing 1 + tr U: ValueError
+        e_, seen = rod_run(True)
+        try:
+            e_.call_function("u_to_rod", [sym_array("U", (3, 3))])
+            raised = None
+        except RaiseReached as r_:
+            raised = exc_name(r_)
+        Us = [[Rat.atom("U[%d,%d]" % (i, j)) for j in range(3)] for i in range(3)]
+        tr1 = 1 + Us[0][0] + Us[1][1] + Us[2][2]
+        on_trace = bool(seen) and (seen[0][0].equals(func_atom("abs", tr1)) or seen[0][0].equals(tr1))
+        ctx.check(raised == "ValueError" and on_trace, "C03:rod:%s.trace-guard" % short,
+                  "vanishing 1 + tr U does not raise ValueError (raised: %s, band test on %s)"
+                  % (raised, N.short(seen[0][0]) if seen else "nothing"), core.loc(mod, fn))
         # --- u_to_euler
         fn = mod.func("u_to_euler"); ctx.saw(mod, fn)
         where = core.loc(mod, fn)
-        chain, t1, t2 = elif_chain(fn)
         c1, s1 = RR.cs(A["phi1"]); cP, sP = RR.cs(A["PHI"]); c2, s2 = RR.cs(A["phi2"])
 
-        def run_branch(which, U):
-            calls = []
+        def run_branch(U, neg=()):
+            """-> (arguments of the _arctan2 calls, result, band tests met).  Band tests (`quantity < small literal`) are
+            answered 'outside' for a symbolic quantity and fold by themselves when the quantity is a constant; the sign of an
+            _arctan2 result is negative exactly for the atoms in `neg`."""
+            calls, bands = [], []
 
             def cpol(name, args, kwargs, node):
                 if name == "_arctan2":
@@ -246,22 +233,19 @@ def run(ctx):
                     return Rat.atom("_arctan2#%d" % len(calls))
                 return NotImplemented
 
-            def bpol(test, e, env):
-                if N.skip_checks_policy(test, e, env) is False:
-                    return False
-                if test is t1:
-                    return which == "zero"
-                if test is t2:
-                    return which == "pi"
-                if isinstance(test, ast.Compare) and len(test.ops) == 1 and isinstance(test.ops[0], ast.Lt) \
-                        and isinstance(test.comparators[0], ast.Constant) and test.comparators[0].value == 0:
-                    return False
-                return None
-            out = Evaluator(mod, inline=True, branch_policy=bpol, call_policy=cpol).call_function("u_to_euler", [U])
+            def thr(q, t, node):
+                bands.append((q, float(t), node))
+                return False
+
+            def signs(d, node=None):
+                return monomial_sign(d, lambda a_: (-1 if a_ in neg else 1) if a_.startswith("_arctan2#") else None)
+            e_ = Evaluator(mod, inline=True, branch_policy=N.skip_checks_policy, call_policy=cpol, sign_policy=signs)
+            e_.threshold_policy = thr
+            out = e_.call_function("u_to_euler", [U])
             O = out if isinstance(out, Arr) else materialise(out)
-            return calls, O
+            return calls, O, bands
         Uw = Arr([[x for x in row] for row in Ue])
-        calls, O = run_branch("general", Uw)
+        calls, O, bands = run_branch(Uw.copy())
         ok = O is not None and O.shape == (3,) and len(calls) == 2
         if ok:
             PHIv = scalar(O.data[1])
@@ -278,15 +262,15 @@ def run(ctx):
                       "phi2 = _arctan2(%s, %s): not sin(PHI)*(sin phi2, cos phi2)" % (N.short(y2), N.short(x2)), where)
         else:
             ctx.fail("C03:euler-inv:%s.shape" % short, "u_to_euler general branch does not return [phi1, PHI, phi2] from two _arctan2 calls", where)
-        # gimbal branches: substitute PHI = 0 / pi into the writer's entries
+        # gimbal branches: substitute PHI = 0 / pi into the writer's entries (the band tests then fold: arccos(+-1) is exact)
         for which, cval, sign in (("zero", 1, +1), ("pi", -1, -1)):
             sub = {"cos(PHI)": Rat.const(cval), "sin(PHI)": Rat.const(0)}
             Ug = Arr([[x.subs(sub) for x in row] for row in Ue])
-            calls, O = run_branch(which, Ug)
-            okg = O is not None and O.shape == (3,) and len(calls) == 1 and scalar(O.data[2]).is_zero() \
-                and scalar(O.data[0]).equals(Rat.atom("_arctan2#1"))
+            gcalls, Og, _b = run_branch(Ug)
+            okg = Og is not None and Og.shape == (3,) and len(gcalls) == 1 and scalar(Og.data[2]).is_zero() \
+                and scalar(Og.data[0]).equals(Rat.atom("_arctan2#1"))
             if okg:
-                y, x = calls[0]
+                y, x = gcalls[0]
                 # sin/cos of (phi1 + sign*phi2)
                 want_y = s1 * c2 + sign * c1 * s2
                 want_x = c1 * c2 - sign * s1 * s2
@@ -294,33 +278,35 @@ def run(ctx):
             ctx.check(okg, "C03:euler-inv:%s.gimbal-%s" % (short, which),
                       "at PHI = %s the branch does not return (phi1 %s phi2, PHI, 0) from (sin, cos) of that sum"
                       % ("0" if which == "zero" else "pi", "+" if sign > 0 else "-"), where)
-        # wraps and result
-        body = core.body_wo_doc(fn)
-        wraps = {}
-        for st in body:
-            if isinstance(st, ast.If) and isinstance(st.test, ast.Compare) and isinstance(st.test.left, ast.Name) \
-                    and isinstance(st.test.ops[0], ast.Lt) and isinstance(st.test.comparators[0], ast.Constant) \
-                    and st.test.comparators[0].value == 0 and len(st.body) == 1 and isinstance(st.body[0], ast.Assign):
-                v = st.test.left.id
-                e = Evaluator(mod, inline=set())
-                val = scalar(e.eval(st.body[0].value, {v: Rat.atom(v)}))
-                wraps[v] = val.equals(Rat.atom(v) + 2 * N.PI) and st.body[0].targets[0].id == v and not st.orelse
-        ret = [st for st in body if isinstance(st, ast.Return)]
-        names = []
-        if ret and isinstance(ret[-1].value, ast.Call) and ret[-1].value.args and isinstance(ret[-1].value.args[0], (ast.List, ast.Tuple)):
-            names = [getattr(x, "id", None) for x in ret[-1].value.args[0].elts]
-        okw = len(names) == 3 and wraps.get(names[0]) and wraps.get(names[2])
-        ctx.check(bool(okw), "C03:range:%s.wraps" % short,
-                  "phi1 and phi2 are not wrapped by +2pi when negative before being returned (%s, %s)" % (names, wraps), where)
-        # PHI assignment is arccos (range [0, pi])
+        # wraps: a negative arctangent is returned increased by 2 pi
+        okw, detail = True, []
+        if ok:
+            for k, pos in ((1, 0), (2, 2)):
+                _c, On, _b = run_branch(Uw.copy(), neg={"_arctan2#%d" % k})
+                good = On is not None and On.shape == (3,) and scalar(On.data[pos]).equals(Rat.atom("_arctan2#%d" % k) + 2 * N.PI) \
+                    and scalar(On.data[2 - pos]).equals(Rat.atom("_arctan2#%d" % (3 - k)))
+                detail.append(N.short(scalar(On.data[pos])) if On is not None and On.shape == (3,) else "?")
+                okw = okw and good
+        ctx.check(bool(ok and okw), "C03:range:%s.wraps" % short,
+                  "phi1 and phi2 are not wrapped by +2pi when negative before being returned (negative results give %s)" % detail, where)
         snaps = analyse_arctan2(ctx, mod, short)
-        # thresholds
-        tol_g, st_g = literal_assign(fn, "tol")
+        # thresholds: the band tests met on the general path, classified by the quantity they bound
+        import math
+        acos = N.ref("arccos(x)", {"x": cP})
+        widths, tols = [], []
+        for q, t, node in bands:
+            if q.equals(func_atom("abs", acos)) or q.equals(func_atom("abs", acos - N.PI)) or q.equals(func_atom("abs", N.PI - acos)) \
+                    or q.equals(acos) or q.equals(N.PI - acos):
+                widths.append(t); tols.append(t)
+            elif q.equals(1 - cP) or q.equals(1 + cP) or q.equals(func_atom("abs", 1 - cP)) or q.equals(func_atom("abs", 1 + cP)):
+                widths.append(math.sqrt(2 * t)); tols.append(t)
+            else:
+                raise AnalysisError("u_to_euler: band test on `%s` is neither on the angle PHI nor on its cosine" % N.short(q))
+        if not tols:
+            raise AnalysisError("u_to_euler: no gimbal threshold test met on the general path")
+        tol_g = max(tols)
         afn = mod.func("_arctan2")
-        tol_z = max([v for v in snaps.values() if v is not None], default=None)
-        uses_tol = all("tol" in core.unparse(t) for t in (t1, t2))
-        if tol_g is None or not uses_tol:
-            raise AnalysisError("u_to_euler: gimbal threshold literal `tol` not found")
+        tol_z = max(snaps.values(), default=None)
         if tol_z is None:
             ctx.ok("C03:snap:%s.u_to_euler" % short)      # no absolute snap: rule has no instance
         else:
@@ -336,35 +322,6 @@ def run(ctx):
                       core.loc(mod, fn))
         # width of the gimbal band in PHI: the test may be on the angle (|PHI| < tol) or on its cosine (1 - cos PHI < tol,
         # i.e. PHI < sqrt(2 tol)); inside the band phi2 is forced to 0 and the rebuilt matrix is off by up to the band width
-        import math
-        Usym = sym_array("U", (3, 3))
-        u22 = Rat.atom("U[2,2]")
-        acos = N.ref("arccos(x)", {"x": u22})
-        widths = []
-        for t_ in (t1, t2):
-            if not (isinstance(t_, ast.Compare) and len(t_.ops) == 1 and isinstance(t_.ops[0], (ast.Lt, ast.LtE))):
-                raise AnalysisError("u_to_euler: gimbal test `%s` is not `<expr> < tol`" % core.unparse(t_))
-            e_ = Evaluator(mod, inline=set())
-            env_ = {}
-            # bind every name the test mentions by evaluating the statements before the chain
-            for st_ in core.body_wo_doc(fn):
-                if st_ is chain:
-                    break
-                if isinstance(st_, ast.Assign) and isinstance(st_.targets[0], ast.Name):
-                    try:
-                        env_[st_.targets[0].id] = e_.eval(st_.value, dict(env_, **{fn.args.args[0].arg: Usym}))
-                    except AnalysisError:
-                        pass
-            left = scalar(e_.eval(t_.left, env_))
-            form = None
-            from xfabsa.poly import func_atom
-            if left.equals(func_atom("abs", acos)) or left.equals(func_atom("abs", acos - N.PI)):
-                form = "angle"
-            elif left.equals(1 - u22) or left.equals(1 + u22):
-                form = "cosine"
-            if form is None:
-                raise AnalysisError("u_to_euler: gimbal test `%s` is neither on the angle nor on its cosine" % core.unparse(t_))
-            widths.append(tol_g if form == "angle" else math.sqrt(2 * tol_g))
         wmax = max(widths)
         ctx.check(wmax <= 1e-6 * (1 + 1e-9), "C03:snap:%s.gimbal-band" % short,
                   "the gimbal branches are taken for PHI within %.3g of 0 / pi (threshold %.3g applied to %s): there phi2 is forced "
